@@ -29,6 +29,17 @@
   (`getattr(a, "\\ud83d\\ude00")`) could bring one in, and the final document is printed by the same
   `json.dumps`, which prints the two alike as well.
 
+  The ORDER of `import_irs` in the `-o ir` document (no hook sorts that dict) is modelled since the
+  import BFS is in the model (`RattrModel/IrDocument.lean` on top of `RattrModel/Imports.lean`): the
+  keys of the `"import_irs"` object are the BFS analysis order (`C18_importirs_in_bfs_order`), the whole
+  document of a run is a function of the module graph with import lists in symbol-table order and of
+  the file IRs as Python objects (`C18_irdocument_canonical`), and it is NOT a function of the graph
+  with import SETS (`C18_ir_document_order_free_false`; smallest witness: an imported module importing
+  two followed modules) — the code is right only because every level of the queue is fed from the
+  ordered `symbol_table.symbols` (`tieA_import_queue`, and Tie B op `ir_document` under several hash
+  seeds). The cache document's `imports` list is sorted on `filepath`, hence independent of the BFS
+  order and of set iteration (`C18_cache_imports_canonical`, `…_bfs_order_free`, `…_sorted`).
+
   Full statement `C18_full` is NOT a theorem (`C18_full_false`):
     * `C18_cex_symtab_order`  the context hook emits `symbol_table` in insertion order (the
                               hash-order insertion of star-import expansions was fixed upstream in
@@ -45,9 +56,11 @@
   the object to serialise.)
 -/
 import RattrModel.Serialise
+import RattrModel.IrDocument
 import RattrModel.Generated.C18
 import RattrProofs.Lemmas.C18
 import RattrProofs.Lemmas.C18Json
+import RattrProofs.Lemmas.C18Imports
 
 namespace Rattr.C18
 open Rattr Rattr.Ser Rattr.C18L Rattr.C18J
@@ -979,6 +992,252 @@ example : FileIrWf wfIr ∧
     rcases hp with rfl | rfl <;>
       exact ⟨by simp [IsSet], by simp [IsSet], by simp [IsSet], by simp [IsSet]⟩
 
+/-! ### The `-o ir` document as the import BFS assembles it; the `imports` list of the cache document
+
+`import_irs` is an insertion-ordered dict and NO hook sorts it (`C18_cex_importirs_not_sorted`): the
+order of the `"import_irs"` object of the document is the order in which `parse_and_analyse_imports`
+assigned `import_irs[name] = …`, i.e. the analysis order of the BFS (`C18_importirs_in_bfs_order`).
+So "the bytes are a function of the analysis alone" holds for the IR document exactly as far as the
+BFS order is a function of the analysis: `Imports.bfs` is a function of the module graph whose import
+LISTS are in symbol-table (declaration) order (`C18_irdocument_canonical`) and it is NOT invariant under
+re-ordering those lists (`C18_ir_document_order_free_false`) — were the queue fed from a set, the
+document would depend on the set's iteration order. That the code feeds the queue from the ordered
+`symbol_table.symbols` view at every level is Tie A (`tieA_import_queue`), and that the model's BFS order
+is the key order of the real `import_irs` is Tie B (op `ir_document`, under every hash seed tried).
+The cache document sorts its `imports` on `filepath`, so it does not depend on the BFS order at all
+(`C18_cache_imports_canonical`, `C18_cache_imports_bfs_order_free`). -/
+
+section ImportBfs
+open Rattr.Imports Rattr.C18I
+
+/-- Tie A for the order of `import_irs`: the BFS queue is a `deque` of the target's `Import` symbols
+taken from `context.symbol_table.symbols` by a list comprehension, popped on the left; the imports of an
+analysed file are appended one by one from a list comprehension over ITS
+`import_context.symbol_table.symbols`; `symbols` is `self._symbols.values()` of a `dict` (insertion
+order); `import_irs` is a `{}` assigned by `import_irs[name] = import_ir` and returned as it is;
+`serialise.py` contains no `sorted(` and a probe `serialise_irs` keeps the insertion order of
+`import_irs`; `make_cacheable_import_info` walks `(target, *import_irs.values())` into a set
+comprehension which it sorts (on `filepath`, `tieA_sorted_calls`). -/
+theorem tieA_import_queue :
+    Generated.C18.importQueue =
+      [("caller:imports", "listcomp[s]:context.symbol_table.symbols|isinstance(s, Import)"),
+       ("queue:init", "call:deque(param:imports)"),
+       ("import_irs:init", "{}"),
+       ("queue:popleft", ""),
+       ("import_irs:store", "import_irs[name] = import_ir"),
+       ("queue:append", "for:listcomp[symbol]:import_context.symbol_table.symbols|isinstance(symbol, Import)"),
+       ("return", "(import_irs, import_stats)")]
+    ∧ Generated.C18.symbolTableOrder =
+      [("_symbols", "dict[Identifier, Symbol] = field(init=False, factory=dict)"),
+       ("symbols", "return self._symbols.values()"),
+       ("__setitem__", "return self._symbols.__setitem__(__key, __value)")]
+    ∧ Generated.C18.serialiseIrsSortedCalls = []
+    ∧ Generated.C18.importIrsProbeKeys = ["zz", "aa", "mm"]
+    ∧ Generated.C18.cacheImportInfo =
+      [("contexts", "(target_ir.context, *(import_.context for import_ in import_irs.values()))"),
+       ("sorted-arg", "setcomp:contexts;context.symbol_table.symbols"), ("filters", "6")] := by
+  decide
+
+/-- The assignments never overwrite when no name repeats: the dict is the list of assignments. -/
+theorem assignIrs_of_nodup (irOf : Str → FileIr) {l : List Str} (h : l.Nodup) :
+    assignIrs irOf l = l.map fun n => (n, irOf n) := by
+  unfold assignIrs
+  apply dictOfBy_id
+  rw [List.pairwise_map]
+  unfold List.Nodup at h
+  exact h.imp (fun hne => by simpa [strEq] using hne)
+
+variable {ω : Type} [DecidableEq ω]
+
+/-- **The `"import_irs"` object is in BFS order.** Whenever the stage finishes, the dict handed to
+`serialise_irs` holds exactly the analysed modules, each with its own IR, in analysis order, and the
+keys of the `"import_irs"` object of the printed document are that very list — for every module graph
+(cycles, diamonds, any depth and fan-out) and every follow level. -/
+theorem C18_importirs_in_bfs_order (g : Graph Str ω) (fl : Flags) (target : List (Imp Str))
+    (irOf : Str → FileIr) (tn : Str) (tir : FileIr) (o : OutputIrs)
+    (h : outputIrsOf g fl target irOf tn tir = some o) :
+    o.importIrs = (bfs g fl (fuelBound g target) target).state.analysed.map (fun n => (n, irOf n))
+    ∧ docImportKeys (unOutputIrs o) = (bfs g fl (fuelBound g target) target).state.analysed
+    ∧ (bfs g fl (fuelBound g target) target).isDone = true := by
+  have hn := bfs_analysed_nodup g fl (fuelBound g target) target
+  unfold outputIrsOf at h
+  cases hb : bfs g fl (fuelBound g target) target with
+  | done st =>
+    rw [hb] at h hn
+    simp only [Option.some.injEq] at h
+    subst h
+    simp only [Out.state] at hn ⊢
+    rw [assignIrs_of_nodup irOf hn]
+    refine ⟨rfl, ?_, rfl⟩
+    simp [docImportKeys, unOutputIrs, List.map_map, Function.comp_def]
+  | fatal st => rw [hb] at h; cases h
+  | crash st => rw [hb] at h; cases h
+  | outOfFuel st => rw [hb] at h; cases h
+
+/-- **C18 (canonical) for the `-o ir` document of a whole run.** Two runs (two processes, two hash
+seeds) that see the same module graph — the `Import` symbols of every file in symbol-table order —
+and whose file IRs are equal as Python objects (every set in whatever iteration order) print the same
+document: same modules, same ORDER of `import_irs`, same bytes inside each file IR. -/
+theorem C18_irdocument_canonical (g : Graph Str ω) (fl : Flags) (target : List (Imp Str))
+    (irOf₁ irOf₂ : Str → FileIr) (tn : Str) (t₁ t₂ : FileIr)
+    (ht : FileIrSetEq t₁ t₂) (htk : KeysDistinct t₁) (hts : FileIrSets t₁)
+    (hi : ∀ n, n ∈ (bfs g fl (fuelBound g target) target).state.analysed →
+      FileIrSetEq (irOf₁ n) (irOf₂ n) ∧ KeysDistinct (irOf₁ n) ∧ FileIrSets (irOf₁ n)) :
+    irDocument g fl target irOf₁ tn t₁ = irDocument g fl target irOf₂ tn t₂ := by
+  have hn := bfs_analysed_nodup g fl (fuelBound g target) target
+  unfold irDocument outputIrsOf
+  cases hb : bfs g fl (fuelBound g target) target with
+  | done st =>
+    rw [hb] at hi hn
+    simp only [Out.state] at hi hn
+    simp only [Option.map_some, Option.some.injEq]
+    refine C18_outputirs_canonical { importIrs := assignIrs irOf₁ st.analysed, targetName := tn, targetIr := t₁ }
+      { importIrs := assignIrs irOf₂ st.analysed, targetName := tn, targetIr := t₂ } rfl ht htk hts ?_
+    simp only
+    rw [assignIrs_of_nodup irOf₁ hn, assignIrs_of_nodup irOf₂ hn]
+    clear hn hb
+    generalize st.analysed = l at hi
+    induction l with
+    | nil => exact .nil
+    | cons a r ih =>
+      simp only [List.map_cons]
+      have ha := hi a List.mem_cons_self
+      exact .cons ⟨rfl, ha.1, ha.2.1, ha.2.2⟩ (ih (fun n hn => hi n (List.mem_cons_of_mem _ hn)))
+  | fatal st => rfl
+  | crash st => rfl
+  | outOfFuel st => rfl
+
+private def leafIr (file : String) : FileIr := { context := .mk none [] (str file), fileIr := [] }
+
+/-- No hook sorts `import_irs`: the same two file IRs inserted in the other order give another
+document (so the order of insertion is observable in the bytes). -/
+theorem C18_cex_importirs_not_sorted :
+    unOutputIrs { importIrs := [(str "b", leafIr "b.py"), (str "a", leafIr "a.py")], targetName := str "t.py",
+                  targetIr := leafIr "t.py" }
+    ≠ unOutputIrs { importIrs := [(str "a", leafIr "a.py"), (str "b", leafIr "b.py")], targetName := str "t.py",
+                    targetIr := leafIr "t.py" } := by
+  decide
+
+private def imp (n : String) : Imp Str := { target := some (str n), declBlacklisted := false }
+private def modl (n : String) (imports : List (Imp Str)) : Module Str String :=
+  { name := str n, origin := some (n ++ ".py"), readable := true, blacklisted := false, inPip := false,
+    inStdlib := false, excluded := false, imports := imports }
+/-- target → `hub` → {`a`, `b`}; `hubImports` is the order in which the hub's imports are queued. -/
+private def hubGraph (hubImports : List (Imp Str)) : Graph Str String :=
+  [modl "hub" hubImports, modl "a" [], modl "b" []]
+private def flLocal : Flags := { loc := true, pip := false, stdlib := false }
+private def irOfName (n : Str) : FileIr := { context := .mk none [] (n ++ str ".py"), fileIr := [] }
+
+/-- Two module graphs that differ only in the ORDER of the import lists of their modules (what two
+iteration orders of one set of import symbols would give). -/
+def GraphPermEq (g₁ g₂ : Graph Str ω) : Prop :=
+  Forall2 (fun m₁ m₂ => m₁.imports.Perm m₂.imports ∧ m₂ = { m₁ with imports := m₂.imports }) g₁ g₂
+
+/-- The reading "the IR document does not depend on the order in which a file's imports are queued"
+(what would be needed if the queue were fed from a set). -/
+def C18_ir_document_order_free : Prop :=
+  ∀ (g₁ g₂ : Graph Str String) (fl : Flags) (target : List (Imp Str)) (irOf : Str → FileIr) (tn : Str)
+    (tir : FileIr), GraphPermEq g₁ g₂ →
+    irDocument g₁ fl target irOf tn tir = irDocument g₂ fl target irOf tn tir
+
+/-- (test, by evaluation) the hub graph with its two imports queued as `a, b` and as `b, a`: the key
+orders of `import_irs` are `hub, a, b` and `hub, b, a`. -/
+theorem C18_cex_import_queue_order :
+    (irDocument (hubGraph [imp "a", imp "b"]) flLocal [imp "hub"] irOfName (str "t.py") (leafIr "t.py")).map docImportKeys
+      = some [str "hub", str "a", str "b"]
+    ∧ (irDocument (hubGraph [imp "b", imp "a"]) flLocal [imp "hub"] irOfName (str "t.py") (leafIr "t.py")).map docImportKeys
+      = some [str "hub", str "b", str "a"] := by
+  decide
+
+/-- It is false: the document DOES depend on the order in which the imports of an imported file are
+queued — the property holds of the code only because every level of the BFS is fed from an ordered
+collection (`tieA_import_queue`). An imported module that imports two followed modules is the
+smallest witness. -/
+theorem C18_ir_document_order_free_false : ¬ C18_ir_document_order_free := by
+  intro h
+  have hp : GraphPermEq (hubGraph [imp "a", imp "b"]) (hubGraph [imp "b", imp "a"]) :=
+    .cons ⟨List.Perm.swap _ _ _, rfl⟩ (.cons ⟨.refl _, rfl⟩ (.cons ⟨.refl _, rfl⟩ .nil))
+  have := congrArg (Option.map docImportKeys)
+    (h _ _ flLocal [imp "hub"] irOfName (str "t.py") (leafIr "t.py") hp)
+  rw [C18_cex_import_queue_order.1, C18_cex_import_queue_order.2] at this
+  revert this
+  decide
+
+omit [DecidableEq ω] in
+/-- A graph in which every imported module imports at most ONE module cannot show the dependence:
+every permutation of such an import list is the list itself, so the permuted graph IS the graph. (Why
+one level of imports below the target, or chains, never exercise the queueing of an imported file's
+imports: it takes an imported module with a fan-out of two or more.) -/
+theorem C18_single_import_lists_order_free (g₁ g₂ : Graph Str ω)
+    (h : Forall2 (fun m₁ m₂ => m₁.imports.Perm m₂.imports ∧ m₂ = { m₁ with imports := m₂.imports }) g₁ g₂)
+    (h1 : ∀ m, m ∈ g₁ → m.imports.length ≤ 1) : g₁ = g₂ := by
+  induction h with
+  | nil => rfl
+  | @cons a b l m hab _ ih =>
+    have hl := h1 a List.mem_cons_self
+    have : a.imports = b.imports := by
+      have hp := hab.1
+      match hi : a.imports, hl with
+      | [], _ => rw [hi] at hp; exact (List.nil_perm.mp hp).symm
+      | [x], _ => rw [hi] at hp; exact (List.perm_singleton.mp hp.symm).symm
+      | _ :: _ :: _, hl => simp at hl
+    rw [ih (fun m hm => h1 m (List.mem_cons_of_mem _ hm))]
+    congr 1
+    rw [hab.2, ← this]
+
+/-! #### the cache document's `imports` -/
+
+/-- `sorted(set, key=filepath)`: whatever the iteration orders of the two sets and whatever the orders
+in which the two runs met the import symbols, equal sets of infos (with one hash per file) give the
+same list. -/
+theorem C18_cache_imports_canonical (perm₁ perm₂ : List ImportInfo → List ImportInfo)
+    (hp₁ : ∀ l, (perm₁ l).Perm l) (hp₂ : ∀ l, (perm₂ l).Perm l) (s₁ s₂ : List ImportInfo)
+    (hmem : ∀ x, x ∈ s₁ ↔ x ∈ s₂)
+    (hinj : ∀ a b, a ∈ s₁ → b ∈ s₁ → a.filepath = b.filepath → a = b) :
+    cacheImports perm₁ s₁ = cacheImports perm₂ s₂ := by
+  unfold cacheImports
+  have hd : (dedupBy importInfoEq s₁).Perm (dedupBy importInfoEq s₂) :=
+    (List.perm_ext_iff_of_nodup (nodup_dedupBy _ importInfoEq_iff s₁) (nodup_dedupBy _ importInfoEq_iff s₂)).mpr
+      (fun x => by rw [mem_dedupBy _ importInfoEq_iff, mem_dedupBy _ importInfoEq_iff, hmem])
+  apply sortBy_perm_eq strLe _ strLe_order (((hp₁ _).trans hd).trans (hp₂ _).symm)
+  intro a b ha hb hab
+  have ha' := (mem_dedupBy _ importInfoEq_iff s₁ a).mp ((hp₁ _).mem_iff.mp ha)
+  have hb' := (mem_dedupBy _ importInfoEq_iff s₁ b).mp ((hp₁ _).mem_iff.mp hb)
+  exact hinj a b ha' hb' hab
+
+/-- In particular the cache document's `imports` do not depend on the ORDER of `import_irs` (the
+contexts may be walked in any order), nor on the set's iteration order. -/
+theorem C18_cache_imports_bfs_order_free (perm₁ perm₂ : List ImportInfo → List ImportInfo)
+    (hp₁ : ∀ l, (perm₁ l).Perm l) (hp₂ : ∀ l, (perm₂ l).Perm l)
+    (t : List (Option ImportInfo)) (infosOf : Str → List (Option ImportInfo)) (keys₁ keys₂ : List Str)
+    (hk : keys₁.Perm keys₂)
+    (hinj : ∀ a b, a ∈ cacheInfoStream t infosOf keys₁ → b ∈ cacheInfoStream t infosOf keys₁ →
+      a.filepath = b.filepath → a = b) :
+    cacheImports perm₁ (cacheInfoStream t infosOf keys₁) = cacheImports perm₂ (cacheInfoStream t infosOf keys₂) := by
+  apply C18_cache_imports_canonical perm₁ perm₂ hp₁ hp₂ _ _ _ hinj
+  intro x
+  unfold cacheInfoStream
+  simp only [List.mem_filterMap, List.mem_append, List.mem_flatMap, id]
+  constructor
+  · rintro ⟨y, (hy | ⟨k, hk', hy⟩), rfl⟩
+    · exact ⟨_, .inl hy, rfl⟩
+    · exact ⟨_, .inr ⟨k, hk.mem_iff.mp hk', hy⟩, rfl⟩
+  · rintro ⟨y, (hy | ⟨k, hk', hy⟩), rfl⟩
+    · exact ⟨_, .inl hy, rfl⟩
+    · exact ⟨_, .inr ⟨k, hk.mem_iff.mpr hk', hy⟩, rfl⟩
+
+/-- The result is sorted on `filepath` and holds exactly the infos of the stream. -/
+theorem C18_cache_imports_sorted (perm : List ImportInfo → List ImportInfo) (hp : ∀ l, (perm l).Perm l)
+    (s : List ImportInfo) :
+    (cacheImports perm s).Pairwise (fun a b => strLe a.filepath b.filepath = true)
+    ∧ (∀ x, x ∈ cacheImports perm s ↔ x ∈ s) ∧ (cacheImports perm s).Nodup := by
+  unfold cacheImports
+  refine ⟨sorted_sortBy strLe _ strLe_order _, fun x => ?_, ?_⟩
+  · rw [mem_sortBy, (hp _).mem_iff, mem_dedupBy _ importInfoEq_iff]
+  · exact ((perm_sortBy strLe _ _).trans (hp _)).nodup_iff.mpr (nodup_dedupBy _ importInfoEq_iff s)
+
+end ImportBfs
+
 /-! ### The full statement (kept visible; false on the pinned tree) -/
 
 /-- C18 in full: every document is canonical (results, file IR — for *all* sets, with or without
@@ -1104,6 +1363,29 @@ example : stSymbol (unSymbol (.call (str "f") ⟨[str "a"], [(str "k", str "b.c"
     (some (.func (str "f") loc0 (.mk ⟨[str "p"], [str "x"], some (str "va"), [str "k"], some (str "kw")⟩) true)) loc0))
     = .ok (.call (str "f") ⟨[str "a"], [(str "k", str "b.c")]⟩
     (some (.func (str "f") loc0 (.mk ⟨[str "p"], [str "x"], some (str "va"), [str "k"], some (str "kw")⟩) true)) loc0) := by
+  decide
+
+/-- `C18_irdocument_canonical` / `C18_importirs_in_bfs_order` on a run over the hub graph (depth 2,
+fan-out 2) in which module `a` has a `calls` set met in two iteration orders: the hypotheses hold
+(`tieIr …` has distinct keys and set members, see above), the stage finishes, the two documents are
+equal and list `hub, a, b` (here also by evaluation); and on a diamond of depth 3
+(target → {l, r}; l → {s, x}; r → {x, s}; s → {d}) the order is the BFS order `l, r, s, x, d`. -/
+example :
+    let ir₁ : Str → FileIr := fun n => if n = str "a" then tieIr [callG "a", callG "b"] else irOfName n
+    let ir₂ : Str → FileIr := fun n => if n = str "a" then tieIr [callG "b", callG "a"] else irOfName n
+    irDocument (hubGraph [imp "a", imp "b"]) flLocal [imp "hub"] ir₁ (str "t.py") (leafIr "t.py")
+      = irDocument (hubGraph [imp "a", imp "b"]) flLocal [imp "hub"] ir₂ (str "t.py") (leafIr "t.py")
+    ∧ (irDocument (hubGraph [imp "a", imp "b"]) flLocal [imp "hub"] ir₁ (str "t.py") (leafIr "t.py")).map docImportKeys
+      = some [str "hub", str "a", str "b"]
+    ∧ (irDocument [modl "l" [imp "s", imp "x"], modl "r" [imp "x", imp "s"], modl "s" [imp "d", imp "l"],
+          modl "x" [], modl "d" []] flLocal [imp "l", imp "r"] irOfName (str "t.py") (leafIr "t.py")).map docImportKeys
+      = some [str "l", str "r", str "s", str "x", str "d"] := by
+  decide
+
+/-- `C18_cache_imports_canonical`: a stream that meets `b.py` twice, iterated in reverse. -/
+example : cacheImports List.reverse [⟨str "b.py", str "1"⟩, ⟨str "a.py", str "2"⟩, ⟨str "b.py", str "1"⟩]
+    = [⟨str "a.py", str "2"⟩, ⟨str "b.py", str "1"⟩]
+    ∧ cacheImports id [⟨str "a.py", str "2"⟩, ⟨str "b.py", str "1"⟩] = [⟨str "a.py", str "2"⟩, ⟨str "b.py", str "1"⟩] := by
   decide
 
 end Rattr.C18
